@@ -1,4 +1,5 @@
 import ParolModel.Proofs.LeftFactor
+import ParolModel.Proofs.GenName
 /-! # C10 — Left factoring preserves the language and removes shared prefixes
 
 Property text: *For every BNF grammar, left factoring terminates, generates the same language, and
@@ -68,10 +69,37 @@ theorem left_factor_helper_fresh {ord : GroupOrd} {fuel : Nat} {rs rs' : List Ru
 /-- **C10, termination — full statement (not proved)**: for every grammar and every drain order
     some fuel suffices. Missing: the measure argument (the sum over non-terminals and pairs of
     alternatives of the common-prefix length strictly decreases with every `factor_out_prefix`
-    that has at least two matching rules) and the pigeonhole argument that `generate_name` finds a
-    name among `|exclusions| + 1` candidates. -/
+    that has at least two matching rules and a non-empty prefix), i.e. a bound on the number of
+    rounds. Everything inside one round is proved to succeed (`factor_out_total`). -/
 def LeftFactorTerminates : Prop :=
   ∀ (ord : GroupOrd) (rs : List RuleN), ∃ fuel rs', leftFactor ord fuel rs = some rs'
+
+/-- **C10, termination — one round never fails**: `generate_name` always finds a suffix name
+    (pigeonhole, `generateName_total`), so `factor_out_prefix` and the whole fold of one round
+    (`factor_out`) return a result for every grammar, every prefix list and every drain order. -/
+theorem factor_out_total (ord : GroupOrd) (rs : List RuleN) :
+    ∃ rs' m, factorOut ord rs = some (rs', m) := by
+  have step : ∀ (rs : List RuleN) (A : Name) (pre : List SymN),
+      ∃ rs', factorOutPrefix rs A pre = some rs' := by
+    intro rs A pre
+    unfold factorOutPrefix
+    split
+    · obtain ⟨X, hX⟩ := generateName_total (namesN rs) (A ++ "Suffix".toList)
+      rw [hX]
+      exact ⟨_, rfl⟩
+    · exact ⟨rs, rfl⟩
+  have fold : ∀ (l : List (Name × List SymN)) (rs : List RuleN),
+      ∃ rs', l.foldlM (fun acc (x : Name × List SymN) => factorOutPrefix acc x.1 x.2) rs = some rs' := by
+    intro l
+    induction l with
+    | nil => intro rs; exact ⟨rs, rfl⟩
+    | cons x l ih =>
+      intro rs
+      obtain ⟨rs1, h1⟩ := step rs x.1 x.2
+      obtain ⟨rs2, h2⟩ := ih rs1
+      exact ⟨rs2, by simp [List.foldlM_cons, h1, h2]⟩
+  obtain ⟨rs', h⟩ := fold (findLongestPrefixes ord rs) rs
+  exact ⟨rs', !(findLongestPrefixes ord rs).isEmpty, by unfold factorOut; simp only; rw [h]; rfl⟩
 
 /-- **C10, termination — proved part**: the result does not depend on the fuel once it suffices
     (running out of fuel is the only way a run can fail to give this result), and the inner search
